@@ -43,6 +43,7 @@ fn main() {
         Some("worker") => std::process::exit(gcsim::driver::worker(&args[2..])),
         Some("check") => std::process::exit(gcsim::driver::check_cmd(&args[2..])),
         Some("replay") => std::process::exit(gcsim::driver::replay_cmd(&args[2..])),
+        Some("replay-inner") => std::process::exit(gcsim::driver::replay_inner_cmd(&args[2..])),
         Some("minimize") => std::process::exit(gcsim::driver::minimize_cmd(&args[2..])),
         Some("one") => std::process::exit(gcsim::driver::one_cmd(&args[2..])),
         Some("digest") => std::process::exit(gcsim::driver::digest_cmd(&args[2..])),
